@@ -265,6 +265,9 @@ def run_scenario(res, W, sc, strategy, tag, with_second=True, dispatcher_kind=No
         res.inconc(f"{sc['name']}: scenario setup failed: {failure}")
         return None, Ssim
     res.case((sc["name"], tag, dispatcher_kind, tuple(Ssim.decisions)), nontrivial=bool(run.attempts))
+    res.count("scheduling_points_passed", Ssim.n_points)
+    res.count("actor_switches", Ssim.switches)
+    res.count("callbacks_observed", len(run.trace))
     ok = judge(res, W, run, sc, Ssim, tag, failure, dispatcher=dispatcher_kind)
     if ok and with_second and failure is None:
         # ---- second run of the same object (fresh simulation clock continues conceptually) ----
